@@ -328,6 +328,7 @@ type clusterOpts struct {
 	notify            bool
 	snapThreshold     uint64
 	commitTimeout     time.Duration
+	spares            int // extra servers with empty stores, not part of the initial configuration
 }
 
 type cluster struct {
@@ -341,6 +342,7 @@ type cluster struct {
 	cfgMu sync.Mutex
 	nextCfgID uint64
 	calls uint64
+	spareIDs []uint64
 }
 
 func (c *cluster) node(id uint64) *cnode { return c.nodes[id] }
@@ -372,7 +374,10 @@ func newCluster(o clusterOpts) *cluster {
 		}
 		c.cfg.Servers = append(c.cfg.Servers, raft.Server{Suffrage: suff, ID: idStr(id), Address: addrStr(id)})
 	}
-	for _, id := range c.ids {
+	for i := 1; i <= o.spares; i++ {
+		c.spareIDs = append(c.spareIDs, uint64(o.voters+o.nonvoters+i))
+	}
+	for _, id := range append(append([]uint64(nil), c.ids...), c.spareIDs...) {
 		n := &cnode{c: c, id: id, logs: NewMapLogStore(nil), stable: NewMapStable(), snaps: NewSnapStore()}
 		c.nodes[id] = n
 	}
@@ -594,6 +599,13 @@ func (c *cluster) startAll() {
 			panic(err)
 		}
 	}
+	// spares join the id list once started (monitors and partitions see them)
+	for _, id := range c.spareIDs {
+		if err := c.nodes[id].start(); err != nil {
+			panic(err)
+		}
+	}
+	c.ids = append(c.ids, c.spareIDs...)
 }
 
 func (c *cluster) shutdown() {
